@@ -9,6 +9,7 @@ import (
 	"math/rand"
 	"net/http"
 	"regexp"
+	"sort"
 	"strings"
 
 	"github.com/google/pprof/internal/plugin"
@@ -26,6 +27,7 @@ type script struct {
 	calls  int
 	failAt int
 	log    []string
+	posts  []string // request bodies sent to the symbol service
 }
 
 func (o *script) step(what string) bool {
@@ -85,6 +87,7 @@ func (f *scriptFile) SourceLine(a uint64) ([]plugin.Frame, error) {
 // RoundTrip implements the symbolz endpoint.
 func (o *script) RoundTrip(req *http.Request) (*http.Response, error) {
 	body, _ := io.ReadAll(req.Body)
+	o.posts = append(o.posts, string(body))
 	if o.step("POST " + req.URL.String()) {
 		return nil, fmt.Errorf("injected transport failure")
 	}
@@ -221,6 +224,15 @@ func snap(p *profile.Profile) string {
 	return sb.String()
 }
 
+func keysOf(m map[string]bool) []string {
+	var out []string
+	for k := range m {
+		out = append(out, k)
+	}
+	sort.Strings(out)
+	return out
+}
+
 type runOut struct {
 	calls int
 	msg   string
@@ -239,6 +251,9 @@ func oneRun(seed int64, mode string, failAt int) runOut {
 	// any of has_functions / has_filenames / has_line_numbers (the symbol service only looks at
 	// has_functions, so the wider rule is applied when the mode excludes it)
 	localOnly := strings.Contains(mode, "local") && !strings.Contains(mode, "remote")
+	// the symbol service is only asked about locations that have no lines yet: in a remote-only
+	// mode every location that already has lines keeps them
+	remoteOnly := strings.Contains(mode, "remote") && !strings.Contains(mode, "local")
 	linesBefore := map[uint64]string{}
 	for _, l := range p.Location {
 		if m := l.Mapping; m != nil && (m.HasFunctions || (localOnly && (m.HasFilenames || m.HasLineNumbers))) {
@@ -269,6 +284,25 @@ func oneRun(seed int64, mode string, failAt int) runOut {
 			sources[m.BuildID] = append(sources[m.BuildID], src)
 		}
 	}
+	// what the symbol service may be asked: per mapping and source, the (offset-adjusted) addresses
+	// of exactly the locations that have no lines yet
+	askable := map[string]bool{}
+	for _, m := range p.Mapping {
+		srcs := append(append([]struct {
+			Source string
+			Start  uint64
+		}{}, sources[m.File]...), sources[m.BuildID]...)
+		for _, src := range srcs {
+			off := int64(src.Start) - int64(m.Start)
+			var a []string
+			for _, l := range p.Location {
+				if l.Mapping == m && l.Address != 0 && len(l.Line) == 0 {
+					a = append(a, fmt.Sprintf("%#x", uint64(int64(l.Address)+off)))
+				}
+			}
+			askable[strings.Join(a, "+")] = true
+		}
+	}
 	ui := &drv.UI{}
 	s := &symbolizer.Symbolizer{Obj: sc, UI: ui, Transport: sc}
 	force := strings.Contains(mode, "force") || strings.Contains(mode, "demangle=full") || strings.Contains(mode, "demangle=none") || strings.Contains(mode, "demangle=templates")
@@ -290,6 +324,16 @@ func oneRun(seed int64, mode string, failAt int) runOut {
 	case snap(p) != before:
 		out.msg = fmt.Sprintf("%s: symbolization changed samples, values, labels, stack depth, addresses or mapping ranges\nbefore:\n%s\nafter:\n%s", ctx, before, snap(p))
 	default:
+		if remoteOnly {
+			for _, body := range sc.posts {
+				if !askable[body] {
+					out.msg = fmt.Sprintf("%s: the symbol service was asked about %q; it may only be asked about the addresses of locations that have no lines yet (per mapping: %v)", ctx, body, keysOf(askable))
+				}
+			}
+			if out.msg != "" {
+				break
+			}
+		}
 		if e := mon.Valid(p); e != nil {
 			out.msg = ctx + ": profile invalid after symbolization: " + e.Error()
 			break
@@ -466,7 +510,7 @@ func init() {
 		ID:    "C12",
 		Level: "fault_enumeration",
 		Rule: "partly symbolized profiles (sparse and colliding function ids incl. id == len+1, several mappings incl. fake/vdso/http ones and two mappings reported at the same address range, unmapped locations whose address equals a mapped one, addresses at mapping edges, folded locations) x 16 mode strings (local, fastlocal, remote, none, force, demangle=*, combinations, unknown) x scripted ObjTool and symbolz endpoint answering deterministically from a seed: open failure, wrong/equal build id, empty/error/1-3 inline frames with hostile names, HTTP 500, empty, garbage, partial answers, extra addresses, overflowing addresses, adjusted source offsets; then the same run repeated with a failure injected at EVERY call index 1..N of the scripted sequence. " +
-			"part driver: the same profiles, modes and scripted tools through the real driver (pprof -symbolize=<mode> -proto <source>, optional failure at a random call index): the saved profile is compared with the input by the same rules (mapping file path and build id excepted, which the driver fills in from the binaries it opens). oracle: snapshot frame condition (samples, values, labels, stack depth and order, location addresses, mapping ranges unchanged), independent validity + unique ids, lines of mappings that already carry symbols (has_functions; for local-only modes also has_filenames / has_line_numbers) untouched unless force, no non-empty name becomes empty. non-trivial = the plug-ins were called at least once; distinct = (mode, scripted sequence)",
+			"part driver: the same profiles, modes and scripted tools through the real driver (pprof -symbolize=<mode> -proto <source>, optional failure at a random call index): the saved profile is compared with the input by the same rules (mapping file path and build id excepted, which the driver fills in from the binaries it opens). oracle: snapshot frame condition (samples, values, labels, stack depth and order, location addresses, mapping ranges unchanged), independent validity + unique ids, lines of mappings that already carry symbols (has_functions; for local-only modes also has_filenames / has_line_numbers) untouched unless force, no non-empty name becomes empty; in remote-only modes every request to the symbol service (observed at the transport) lists exactly the addresses of one mapping's line-less locations. non-trivial = the plug-ins were called at least once; distinct = (mode, scripted sequence)",
 		Assumptions:   []string{"function ids below 2^62 (new ids are allocated above the largest one)", "fail-at-call-k is exhaustive over the calls of each scripted sequence; the sequences themselves are sampled"},
 		Parts:         []harness.Part{{Name: "symbolize", Quick: 6000, Thor: 300000, Run: run}, {Name: "driver", Quick: 1500, Thor: 60000, Run: runDriver}},
 		MinNonTrivial: func(string) int { return 50 },
